@@ -2,11 +2,11 @@
 
 specs/Glob.tla is the reference (component-wise matching with Pattern.tla's
 matcher, the hidden-file rule, directories only before a slash, literal
-components by existence, escapes).  GlobGen enumerates every tree over four
+components by existence, escapes).  GlobGen enumerates every tree over five
 top-level names (plain, two characters, dot file, a name with a pattern
-character) with six shapes each (absent, file, empty directory, directory with
+character, a name ending in a backslash) with six shapes each (three for the last) (absent, file, empty directory, directory with
 a file, directory with a dot file, dangling symlink) and every pattern of one
-or two components from a pool of eleven components, with and without trailing
+or two components from a pool of twelve components, with and without trailing
 slash, and computes the expected set.  The driver builds each tree in a
 scratch directory and runs the real pattern.Glob; GlobCheck validates set
 equality (modulo the optional . and .. members), existence of every result,
@@ -18,19 +18,24 @@ LEVEL = "model_checking"
 
 
 def run(R):
-    R.rule = ("cases = (tree, pattern): 6^4 = 1296 trees x 264 patterns (11 components: literal, *, ?, a*, .*, [ab]*, escaped, a?, "
-              "escaped star, *b, ??; one or two components; with / without trailing slash); exhaustive; distinct_nontrivial = "
+    R.rule = ("cases = (tree, pattern): 6^4 x 3 = 3888 trees x 576 patterns (12 components: literal, *, ?, a*, .*, [ab]*, escaped, a?, "
+              "escaped star, *b, ??, escaped backslash; one or two components; with / without trailing slash; absolute and repeated-slash forms of all one-component and 36 two-component patterns); exhaustive; distinct_nontrivial = "
               "distinct (tree, pattern) pairs with a non-empty expected result")
-    R.assumptions = ["relative patterns in a scratch directory (absolute patterns and repeated slashes are not generated)",
+    R.assumptions = ["patterns are evaluated in a scratch directory; absolute patterns are prefixed with its path (ROOT in the spec)",
+                     "a result keeps the separators of the pattern as written (a//b gives a//b); leading repeated slashes are not generated",
                      "'.' and '..' are optional members for components that begin with a literal period",
                      "a component followed by a slash selects directories, following symbolic links (a dangling link is not a directory)"]
-    res = R.tlc("GlobGen", "INIT Init\nNEXT Next\nINVARIANT Emit\n", name="GlobGen", timeout=3000)
+    shapes = ["absent", "file", "dir", "dir+a", "dir+.c", "link"]
+    import itertools
+    import random
+    allidx = sorted(sum(shapes.index(sh) * 6 ** i for i, sh in enumerate(t))
+                    for t in itertools.product(shapes, shapes, shapes, shapes, ["absent", "file", "dir+a"]))
+    sel = allidx if R.tier != "quick" else sorted(random.Random(R.seed).sample(allidx, 400))
+    res = R.tlc("GlobGen", "INIT Init\nNEXT Next\nINVARIANT Emit\nCONSTANT Sel <- MCSel\n", defs="MCSel == {%s}\n" % ", ".join(map(str, sel)),
+                name="GlobGen", timeout=6000)
     cases = [json.loads(p[1]) for p in res.prints if p and p[0] == "CASE"]
-    if len(cases) != 1296:
-        raise vlib.MachineryError("GlobGen produced %d trees" % len(cases))
-    if R.tier == "quick":
-        import random
-        cases = random.Random(R.seed).sample(cases, 400)
+    if sorted(c["index"] for c in cases) != sel:
+        raise vlib.MachineryError("GlobGen produced %d of %d trees" % (len(cases), len(sel)))
     obs, _ = R.drive("glob", cases, shards=vlib.NCPU, timeout=3000)
     if len(obs) != len(cases):
         raise vlib.MachineryError("driver returned %d of %d" % (len(obs), len(cases)))
@@ -52,7 +57,7 @@ def run(R):
                   observed=["/".join("".join(n) for n in r) for r in p["obs"]["res"]],
                   flags={k2: p["obs"][k2] for k2 in ("err", "sorted", "nodup", "lstat", "slashok", "panic", "dots")})
         R.violation("Glob differs from Glob.tla: %s" % json.dumps(ex, ensure_ascii=False)[:1500],
-                    dict(kind="glob", case=dict(tree=c["tree"], entries=c["entries"], pats=[{k2: p[k2] for k2 in ("comps", "slash", "exp")}])),
+                    dict(kind="glob", case=dict(tree=c["tree"], entries=c["entries"], pats=[{k2: p[k2] for k2 in ("comps", "slash", "abs", "rep", "exp", "expstr")}])),
                     coords=dict(pattern=p["obs"]["text"]))
     R.exhaustive = R.tier != "quick"
     R.evaluations = sum(len(c["pats"]) for c in obs)
